@@ -43,6 +43,9 @@ def load_findings():
     return {e["key"]: e for e in doc.get("findings", []) if e.get("status") == "open"}
 
 
+CURRENT_REPORT = None
+
+
 class Report:
     """Collects failing cases by mechanism key; decides the exit status."""
 
@@ -53,6 +56,8 @@ class Report:
         self.inconclusive = []
         self.t0 = time.time()
         self.notes = {}
+        global CURRENT_REPORT
+        CURRENT_REPORT = self  # the CLI finishes it if the check dies later (recorded failures stand)
 
     def fail(self, key, witness, site=None):
         e = self.failures.setdefault(key, {"count": 0, "witness": witness})
